@@ -247,6 +247,9 @@ func (p *Prog) relsDepth(f *ssa.Function, depth int) map[*ssa.BasicBlock]relSet 
 				if rs, ok := relOf(fact{ifc.Cond, i == 0}); ok {
 					e[rs] = true
 				}
+				for k := range p.condCallFacts(ifc.Cond, i == 0) {
+					e[k] = true
+				}
 			}
 			old, ok := in[s]
 			var nw relSet
@@ -813,4 +816,133 @@ func (p *Prog) RelsOnEdge(rm map[*ssa.BasicBlock]relSet, pred, succ *ssa.BasicBl
 		}
 	}
 	return out
+}
+
+// condCallFacts: the facts a branch on the result of a repository helper establishes beyond the
+// branch condition itself — what holds on every abstract path of the callee that can return the
+// tested value (helper-extracted guards such as `obj, ok := namedPtrElem(t); if ok {…}`), with
+// the callee's parameters replaced by the arguments and its returned keys by the call's results.
+func (p *Prog) condCallFacts(cond ssa.Value, val bool) relSet {
+	for {
+		u, ok := cond.(*ssa.UnOp)
+		if !ok || u.Op != token.NOT {
+			break
+		}
+		cond, val = u.X, !val
+	}
+	var call *ssa.Call
+	idx := 0
+	want := ""
+	pick := func(v ssa.Value) bool {
+		switch x := v.(type) {
+		case *ssa.Extract:
+			if c, ok := x.Tuple.(*ssa.Call); ok {
+				call, idx = c, x.Index
+				return true
+			}
+		case *ssa.Call:
+			call, idx = x, 0
+			return true
+		}
+		return false
+	}
+	if bo, ok := cond.(*ssa.BinOp); ok && (bo.Op == token.EQL || bo.Op == token.NEQ) {
+		var other ssa.Value
+		if c, ok := bo.Y.(*ssa.Const); ok && c.Value == nil {
+			other = bo.X
+		} else if c, ok := bo.X.(*ssa.Const); ok && c.Value == nil {
+			other = bo.Y
+		}
+		if other == nil || !pick(other) {
+			return nil
+		}
+		if (bo.Op == token.EQL) == val {
+			want = "nil"
+		} else {
+			want = "!nil"
+		}
+	} else if pick(cond) {
+		if val {
+			want = "true"
+		} else {
+			want = "false"
+		}
+	} else {
+		return nil
+	}
+	callee := calleeOf(&call.Call)
+	if callee == nil || callee.Pkg == nil || !InRepo(callee.Pkg.Pkg.Path()) || len(callee.Blocks) == 0 || len(callee.Blocks) > 40 ||
+		len(callee.Params) != len(call.Call.Args) || p.condBusy[callee] {
+		return nil
+	}
+	if p.condBusy == nil {
+		p.condBusy = map[*ssa.Function]bool{}
+	}
+	p.condBusy[callee] = true
+	ips, ok := p.ipaths(callee)
+	delete(p.condBusy, callee)
+	if !ok {
+		return nil
+	}
+	psub := map[string]string{}
+	for i, pa := range callee.Params {
+		psub[pa.Name()] = sk(call.Call.Args[i])
+	}
+	ck := sk(call)
+	var res relSet
+	for _, ip := range ips {
+		if ip.Exit != "return" || idx >= len(ip.Ret) {
+			continue
+		}
+		r := ip.Ret[idx]
+		lit := isLiteralKey(r)
+		switch want {
+		case "true":
+			if r == "false" {
+				continue
+			}
+		case "false":
+			if r == "true" {
+				continue
+			}
+		case "nil":
+			if lit && r != "nil" {
+				continue
+			}
+		case "!nil":
+			if r == "nil" {
+				continue
+			}
+		}
+		facts := relSet{}
+		for k := range ip.Rels {
+			facts[k] = true
+		}
+		if !lit && (want == "true" || want == "false") {
+			if s, ok := relFromKey(r, want == "true"); ok {
+				facts[s] = true
+			}
+		}
+		var binds [][2]string
+		for j, rk := range ip.Ret {
+			if isLiteralKey(rk) {
+				continue
+			}
+			to := ck
+			if len(ip.Ret) > 1 {
+				to = shortKey(ck + "#" + itoa(j))
+			}
+			binds = append(binds, [2]string{keySubst(rk, psub), to})
+		}
+		out := relSet{}
+		for k := range facts {
+			out[renormRel(replaceAllKeys(keySubst(k, psub), binds))] = true
+		}
+		if res == nil {
+			res = out
+		} else {
+			res = res.intersect(out)
+		}
+	}
+	return res
 }
